@@ -282,7 +282,7 @@ func (ifi *InterfaceIdent) marshal(proto int, b []byte) error {
 	b[2], b[3] = classInterfaceIdent, byte(ifi.Type)
 	switch ifi.Type {
 	case typeInterfaceByName:
-		copy(b[4:], ifi.Name)
+		copy(b[4:l], ifi.Name) // Len caps the name, do not write past the object
 	case typeInterfaceByIndex:
 		binary.BigEndian.PutUint32(b[4:4+4], uint32(ifi.Index))
 	case typeInterfaceByAddress:
